@@ -37,6 +37,7 @@ type lval struct {
 	mt     *types.Map
 	k      Val
 	str    string
+	srField bool
 }
 
 func (ex *Exec) lvalue(e ast.Expr) *lval {
@@ -72,7 +73,20 @@ func (ex *Exec) lvalue(e ast.Expr) *lval {
 		var curTyp types.Type
 		var curVal Val
 		isPtr := isPointer(xt)
-		if ref, ok := ex.boxedStructRef(e.X); ok {
+		if o := ex.srVar(e.X); o != nil {
+			st := structOf(o.Type())
+			f := st.Field(path[0])
+			cur = &lval{kind: lvVar, key: ex.srKey(o, f), typ: f.Type(), str: exprString(e.X) + "." + f.Name(), srField: true}
+			if len(path) == 1 {
+				return cur
+			}
+			path = path[1:]
+			curTyp = f.Type()
+			isPtr = isPointer(curTyp)
+			if isPtr {
+				curVal = ex.load(cur)
+			}
+		} else if ref, ok := ex.boxedStructRef(e.X); ok {
 			// field of an address-taken struct variable: the variable lives in the heap
 			isPtr = true
 			curVal = Val{ref, types.NewPointer(xt)}
@@ -126,6 +140,15 @@ func (ex *Exec) lvalue(e ast.Expr) *lval {
 func (ex *Exec) load(lv *lval) Val {
 	switch lv.kind {
 	case lvVar:
+		if lv.srField {
+			t, ok := ex.st.env[lv.key]
+			if !ok {
+				t = ex.fresh("free."+lv.str, sortOf(lv.typ))
+				ex.rawFact(ex.typeFact(lv.typ, t))
+				ex.st.env[lv.key] = t
+			}
+			return Val{t, lv.typ}
+		}
 		return ex.loadVar(lv.obj)
 	case lvBoxed:
 		return ex.loadVar(lv.obj)
@@ -163,6 +186,10 @@ func (ex *Exec) store(lv *lval, v Val) {
 	switch lv.kind {
 	case lvBlank:
 	case lvVar:
+		if !lv.srField && ex.isSR(lv.obj) {
+			ex.srExplode(lv.obj, v.T)
+			return
+		}
 		ex.st.env[lv.key] = v.T
 	case lvBoxed:
 		ref := ex.st.env[lv.key]
@@ -354,6 +381,10 @@ func (ex *Exec) define(id *ast.Ident, v Val) {
 		// fresh cell at each declaration
 		delete(ex.st.env, key)
 		ex.store(&lval{kind: lvBoxed, obj: obj, key: key, typ: obj.Type()}, v)
+		return
+	}
+	if ex.isSR(obj) {
+		ex.srExplode(obj, v.T)
 		return
 	}
 	ex.st.env[key] = v.T
